@@ -29,6 +29,10 @@ ASSUMPTIONS = ["numpy digitize/linspace semantics", "connectivity, splitting and
 def check(repo, col, tier):
     col.rule("R-C16-stale", "no must-stale read of a loop-assigned variable in the SWC helpers", 3)
     col.rule("R-C16-forms", "interpolation / centre / clipping / length conventions", 8)
+    col.rule("R-C16-switches", "optional conventions of the reader are off by default", 3)
+    _switches(repo, col, "R-C16-switches")
+    col.rule("R-C16-fresh", "every import reads the file: no step of the reader is memoised", 10)
+    _fresh(repo, col, "R-C16-fresh")
     col.rule("R-C16-split", "max_branch_len splitting, parent lookup and sorting keep sections, types and connectivity together", 8)
     _split(repo, col)
     _stale(repo, col)
@@ -419,13 +423,18 @@ def _forms(repo, col):
             s_.value.args[1].op == "const" and s_.value.args[1].name == "length"]
     ok, got = False, None
     if sets:
-        got = sets[0].value.args[2]
+        got = canon(idx.inline(repo, fi, sets[0].value.args[2], keep=("swc_to_jaxley",), value_only=True))   # thin wrappers of the reader are looked through
         # repeat(P, n) / n with P the path lengths returned by swc_to_jaxley and n the SAME count in both places
-        d = got
-        if d.op == "binop" and d.name == "/" and d.args[0].op == "mcall" and d.args[0].name == "repeat" and len(d.args[0].args) == 3:
-            rp = d.args[0]
-            P, n1, n2 = rp.args[1], rp.args[2], d.args[1]
-            ok = n1.key() == n2.key() and P.op == "item" and P.name == 1 and P.args[0].op == "call" and P.args[0].name == "swc_to_jaxley"
+        def alts(t):
+            return alts(t.args[1]) + alts(t.args[2]) if t.op == "ifexp" else [t]
+
+        def form(d):
+            if d.op == "binop" and d.name == "/" and d.args[0].op == "mcall" and d.args[0].name == "repeat" and len(d.args[0].args) == 3:
+                rp = d.args[0]
+                P, n1, n2 = rp.args[1], rp.args[2], d.args[1]
+                return n1.key() == n2.key() and P.op == "item" and P.name == 1 and P.args[0].op == "call" and P.args[0].name == "swc_to_jaxley"
+            return False
+        ok = all(form(d) for d in alts(got))
     col.add(R, fi, "compartment length = path length of its branch / ncomp", "DISCHARGED" if ok else ("VIOLATED" if got is not None else "UNDECIDED"),
             "np.repeat(pathlengths, ncomp) / ncomp" if ok else
             f"compartment lengths are set to {got.short(120) if got is not None else None}: each of the ncomp compartments of a branch must get "
@@ -464,6 +473,82 @@ def _forms(repo, col):
     col.add(R, fi, "type groups partition the branches by SWC type (types > 5 become custom<k>)", "DISCHARGED" if ok else ("VIOLATED" if gs else "UNDECIDED"),
             "cell.branch(where(types == t)[0]).add_to_group(name(t)) for t in unique(types)" if ok else f"group assignment altered: {why}",
             node=gs[0].node if gs else fi.node)
+
+
+def _reachable(repo):
+    """module-level functions of the package reachable from read_swc through resolved calls"""
+    start = repo.func(SW, "read_swc")
+    seen, todo = {}, [start]
+    while todo:
+        fi = todo.pop()
+        if fi.qual in seen or not fi.file.startswith("jaxley/"):
+            continue
+        seen[fi.qual] = fi
+        mi = repo.mods[fi.file]
+        for c in ast.walk(fi.node):
+            if isinstance(c, ast.Call) and isinstance(c.func, ast.Name):
+                r = repo.resolve_name(mi, c.func.id)
+                if r is not None and hasattr(r, "node") and isinstance(r.node, ast.FunctionDef) and getattr(r, "cls", None) is None:
+                    todo.append(r)
+    if len(seen) < 6:
+        raise AnalysisError(f"only {len(seen)} functions reachable from read_swc")
+    return seen
+
+
+def _fresh(repo, col, R):
+    """read_swc yields the morphology of the FILE: whatever it calls between opening the file and building the cell is recomputed on
+    every call.  A memoised step (functools.lru_cache / cache on the reader or a wrapper, a module-level dictionary of parsed files) is
+    keyed by the file NAME (and options); after the file is rewritten -- or another file is written under the same name, as every
+    morphology-editing script does -- the stale tree is returned."""
+    CACHES = ("lru_cache", "cache", "cached", "memoize", "memoized")
+    seen = _reachable(repo)
+    for q, fi in sorted(seen.items()):
+        bad = next((d for d in fi.node.decorator_list if unparse(d).split("(")[0].split(".")[-1] in CACHES), None)
+        col.check(bad is None, R, fi, f"{q} is recomputed on every import", "not memoised",
+                  f"`@{unparse(bad) if bad else ''}` keeps the result per file NAME: a second read_swc of a path whose content changed returns the "
+                  f"branches, lengths, radii and groups of the old content", node=bad or fi.node)
+        # a module-level dictionary used as a cache: written under a key and read back in the same function
+        mi = repo.mods[fi.file]
+        glob = {t.id for st in mi.tree.body if isinstance(st, (ast.Assign, ast.AnnAssign)) for t in (st.targets if isinstance(st, ast.Assign) else [st.target])
+                if isinstance(t, ast.Name) and isinstance(st.value, (ast.Dict, ast.Call)) and (isinstance(st.value, ast.Dict) or unparse(st.value.func) in ("dict", "OrderedDict", "collections.OrderedDict"))}
+        wr = [n for n in ast.walk(fi.node) if isinstance(n, ast.Assign) and any(isinstance(t, ast.Subscript) and isinstance(t.value, ast.Name) and t.value.id in glob for t in n.targets)]
+        col.check(not wr, R, fi, f"{q} keeps no parsed file in a module-level table", "",
+                  f"`{unparse(wr[0])[:70] if wr else ''}` stores a result in a module-level dictionary", node=wr[0] if wr else fi.node)
+
+
+def _switches(repo, col, R):
+    """`read_swc(fname, ncomp)` without further arguments reproduces the traced morphology: one branch per unbranched section,
+    unclipped radii.  The conventions that DEVIATE from the trace on request -- splitting at `max_branch_len`, clipping at `min_radius`
+    -- are switches: parameters that the reader tests against None.  Every such parameter is off (None) by default, in read_swc and
+    in every function it is handed down to."""
+    n = 0
+    reach = list(_reachable(repo).values())
+    for fname_ in ("read_swc", "swc_to_jaxley"):
+        fi = repo.func(SW, fname_)
+        a = fi.node.args
+        pos = a.posonlyargs + a.args
+        dflt = dict(zip([x.arg for x in pos[len(pos) - len(a.defaults):]], a.defaults))
+        dflt.update({x.arg: d for x, d in zip(a.kwonlyargs, a.kw_defaults) if d is not None})
+        for x in pos + a.kwonlyargs:
+            # a switch: tested `is None` / `is not None` here or, handed down under the same name, in a callee of the reader
+            tested = False
+            for g in reach:
+                if x.arg not in g.params:
+                    continue
+                for c in ast.walk(g.node):
+                    if isinstance(c, ast.Compare) and isinstance(c.left, ast.Name) and c.left.id == x.arg and len(c.ops) == 1 and \
+                            isinstance(c.ops[0], (ast.Is, ast.IsNot)) and isinstance(c.comparators[0], ast.Constant) and c.comparators[0].value is None:
+                        tested = True
+            if not tested or x.arg in ("ncomp", "nseg", "fname"):
+                continue
+            n += 1
+            d = dflt.get(x.arg)
+            off = d is not None and isinstance(d, ast.Constant) and d.value is None
+            col.check(off, R, fi, f"{fname_}: the optional convention `{x.arg}` is off by default", f"{x.arg}=None",
+                      f"`{x.arg}` defaults to `{unparse(d) if d is not None else 'a required value'}`: an import that does not mention it no longer reproduces the traced "
+                      f"sections (e.g. an unbranched axon longer than the default is cut into several branches)", node=d or fi.node)
+    if n < 3:
+        raise AnalysisError(f"only {n} optional conventions of the SWC reader found")
 
 
 def _conjuncts(guards):
@@ -805,6 +890,16 @@ def _split(repo, col):
                 for x in t_.walk():
                     r_ = starts(x) if x.op == "cmp" else None
                     if r_:
+                        cands.append(r_)
+        if not cands:
+            # the complementary mask: `cont[1:] = (parents[1:] == ids[:-1]) & (types[1:] == types[:-1])`, sections start at `~cont`
+            for s_ in ex.stores:
+                if s_.kind == "sub" and s_.value is not None:
+                    r_ = starts(s_.value, True)
+                    used_negated = any(T.find(t_, lambda x: (x.op == "unary" and x.name == "Invert" and x.args[0].key() == s_.base.key()) or
+                                              (x.op in ("call", "mcall") and x.name == "logical_not" and any(a_.key() == s_.base.key() for a_ in x.args))) is not None
+                                       for t_ in terms)
+                    if r_ and used_negated:
                         cands.append(r_)
         cands = [max(cands, key=len)] if cands else []
     for r_ in cands:
